@@ -161,8 +161,17 @@ Definition revisionEnd (fsize : Z) (arr : list Z) : option Z :=
   | _ => None
   end.
 
+(* The three classification inputs of a signature are kept apart:
+     dts       : the signature FIELD was classified as a document time stamp by the sig dict's
+                 /Type /DocTimeStamp (validate/form.go:cacheSig -> sig.Type == SigTypeDTS);
+     sf        : the sig dict's /SubFilter (it selects the handler, sign.go:sigHandler);
+     increment : the xref increment the field object was found in.
+   Both revision sites below consult dts and increment only; sf is an input they do NOT look at
+   (a time-stamp SubFilter without /Type /DocTimeStamp gets no exemption). *)
+Inductive subFilter := SF_RFC3161 | SF_CAdES | SF_PKCS7Detached | SF_Other.
+
 (* pkg/pdfcpu/sign.go:305 recordSignedRevisionBoundaryEvidence: true = go on validating *)
-Definition boundaryOK (fsize : Z) (arr : list Z) (increment : Z) (dts : bool) : bool :=
+Definition boundaryOK (fsize : Z) (arr : list Z) (increment : Z) (dts : bool) (sf : subFilter) : bool :=
   match revisionEnd fsize arr with
   | None => true                                           (* !ok *)
   | Some e => negb ((increment =? 0) || dts)               (* !evidence.currentRevision *)
@@ -170,7 +179,7 @@ Definition boundaryOK (fsize : Z) (arr : list Z) (increment : Z) (dts : bool) : 
   end.
 
 (* pkg/pdfcpu/sign.go:285 applyHistoricalRevisionReporting (DocModified part) *)
-Definition applyHistorical (increment : Z) (dts : bool) (d : tri) : tri :=
+Definition applyHistorical (increment : Z) (dts : bool) (sf : subFilter) (d : tri) : tri :=
   if (increment <=? 0) || dts then d
   else match d with TFalse => TUnknown | _ => d end.
 
@@ -182,11 +191,11 @@ Definition applyHistorical (increment : Z) (dts : bool) (d : tri) : tri :=
    signedData fails with a malformed-ByteRange error. *)
 Definition docModified (verdict : list N -> tri)
     (fsize : Z) (f : list N) (arr : list Z) (contents : option (list N))
-    (increment : Z) (dts : bool) : tri :=
-  if negb (boundaryOK fsize arr increment dts) then TUnknown
+    (increment : Z) (dts : bool) (sf : subFilter) : tri :=
+  if negb (boundaryOK fsize arr increment dts sf) then TUnknown
   else match signedData f arr contents with
        | Err => TUnknown
-       | Ok data => applyHistorical increment dts (verdict data)
+       | Ok data => applyHistorical increment dts sf (verdict data)
        end.
 
 (* entry point used by the harness: the handler's verdict is supplied as a value *)
